@@ -269,6 +269,9 @@ func considerRef(a *ASpec, n *ANode, node string, orig, cur map[string]interface
 // scrub replaces error texts by ErrToken: the values under
 // "actionError"/"error" at the top of a bindings map (and inside
 // lastBindings), and every other occurrence of those same strings.
+// Scrub is exported for checks that compare states modulo error texts.
+func Scrub(bs map[string]interface{}) map[string]interface{} { return scrub(bs) }
+
 func scrub(bs map[string]interface{}) map[string]interface{} {
 	if bs == nil {
 		return nil
